@@ -2,7 +2,11 @@
 // loads one harness object per architecture, enumerates the operand spaces, compares every lane of
 // every kernel result with the reference model.  Also replays single batches (--replay).
 #include <fenv.h>
+#include <unistd.h>
 #include <xmmintrin.h>
+
+#include <atomic>
+#include <thread>
 
 #include "classify.hpp"
 #include "elementwise.hpp"
@@ -223,7 +227,46 @@ int main(int argc, char** argv)
         fprintf(stderr, "no operations registered for %s\n", prop.c_str());
         return 2;
     }
+    // hang watchdog: a kernel call that does not return within 60 s ends the run with a report (exit status 4)
+    std::atomic<bool> wd_done { false };
+    std::thread wd([&]()
+                   {
+        while (!wd_done)
+        {
+            usleep(500000);
+            const double now = now_s();
+            for (int i = 0; i < 256; ++i)
+            {
+                HangSlot& h = hang_slots()[i];
+                const double s = h.t0.load();
+                const xv_op* op = h.op.load();
+                if (s != 0 && now - s > 60 && op)
+                {
+                    const int mi = h.module.load();
+                    const std::string arch = (mi >= 0 && (size_t)mi < E.mods.size()) ? E.mods[(size_t)mi].arch : "?";
+                    J j;
+                    j.obj();
+                    j.k("property_id").str(prop);
+                    j.k("hang").b(true);
+                    j.k("op").str(op->name);
+                    j.k("type").str(xv_type_name[op->elem]);
+                    j.k("arch").str(arch);
+                    j.k("param").num((double)h.param.load());
+                    j.eobj();
+                    FILE* fp = fopen(out.c_str(), "w");
+                    if (fp)
+                    {
+                        fwrite(j.s.data(), 1, j.s.size(), fp);
+                        fclose(fp);
+                    }
+                    fprintf(stderr, "[xvdrive] HANG: %s<%s> on %s (param %ld) did not return within 60 s\n", op->name, xv_type_name[op->elem], arch.c_str(), h.param.load());
+                    _exit(4);
+                }
+            }
+        } });
     E.run();
+    wd_done = true;
+    wd.join();
     RunStats R = E.stats();
     std::vector<std::string> archs, notes;
     for (auto& m : E.mods)
